@@ -38,6 +38,7 @@ META = dict(
     technique="affine index arithmetic on the AST, ordering (dominance) rules, API resolution against the installed library's source",
 )
 META["text"] += " R2: the card identifier built from a sampled CVR is a function of that CVR's id alone."
+META["text"] += ' R1 also: the per-sample loop skips a number only under a guard equivalent to "outside the format\'s range" (1..total for Dominion, 0..total-1 for Hart).'
 
 
 def run(chk):
